@@ -21,7 +21,7 @@ func init() {
 		{Name: "deferred calls run before the return operands are stored", File: "internal/ssa/builder.go", Old: "\t\t// Run function calls deferred in this\n\t\t// function when explicitly returning from it.\n\t\tfn.emit(new(RunDefers))\n\t\tif fn.namedResults != nil {", New: "\t\tif fn.namedResults != nil {", Expect: "named-results-around-defers"},
 		{Name: "append reallocates when it exactly fills the capacity", File: "internal/backends/compiler_wat/wir/value_slice.go", Old: "\tf.Insts = append(f.Insts, x.ExtractByName(\"c\").EmitPush()...)\n\tf.Insts = append(f.Insts, wat.NewInstLe(wat.U32{}))", New: "\tf.Insts = append(f.Insts, x.ExtractByName(\"c\").EmitPush()...)\n\tf.Insts = append(f.Insts, wat.NewInstLt(wat.U32{}))", Expect: "append-in-place-threshold"},
 		{Name: "unsigned division formats as div_s", File: "internal/backends/compiler_wat/wir/wat/instruction_arith.go", Old: "sb.WriteString(\"i32.div_u\")", New: "sb.WriteString(\"i32.div_s\")", Expect: "mnemonic-by-type :: instDiv"},
-		{Name: "u64 shr formats arithmetic", File: "internal/backends/compiler_wat/wir/wat/instruction_bit.go", Old: "sb.WriteString(\"i64.shr_u\")", New: "sb.WriteString(\"i64.shr_s\")", Expect: "mnemonic-by-type :: instShr"},
+		{Name: "u64 shr formats arithmetic", File: "internal/backends/compiler_wat/wir/wat/instruction_bit.go", Old: "sb.WriteString(\".shr_u\")", New: "sb.WriteString(\".shr_s\")", Expect: "instShr"},
 		{Name: "u16 treated as signed wat type", File: "internal/backends/compiler_wat/wir/value_type.go", Old: "case *U32, *U8, *U16, *Bool:\n\t\treturn wat.U32{}", New: "case *U32, *U8, *Bool:\n\t\treturn wat.U32{}\n\tcase *U16:\n\t\treturn wat.I32{}", Expect: "kind-signedness :: U16"},
 		{Name: "u8 multiplication loses its mask", File: em, Old: "\t\t\tinsts = append(insts, wat.NewInstMul(toWatType(ret_type)))\n\t\t}\n\n\t\tif ret_type.Equal(m.U8) {\n\t\t\tinsts = append(insts, wat.NewInstConst(wat.I32{}, \"255\"))\n\t\t\tinsts = append(insts, wat.NewInstAnd(wat.I32{}))\n\t\t} else if", New: "\t\t\tinsts = append(insts, wat.NewInstMul(toWatType(ret_type)))\n\t\t}\n\n\t\tif false {\n\t\t} else if", Expect: "narrow-mask :: binop Mul U8"},
 		{Name: "u16 mask constant wrong", File: em, Old: "\t\t\tinsts = append(insts, wat.NewInstSub(toWatType(ret_type)))\n\t\t}\n\n\t\tif ret_type.Equal(m.U8) {\n\t\t\tinsts = append(insts, wat.NewInstConst(wat.I32{}, \"255\"))\n\t\t\tinsts = append(insts, wat.NewInstAnd(wat.I32{}))\n\t\t} else if ret_type.Equal(m.U16) {\n\t\t\tinsts = append(insts, wat.NewInstConst(wat.I32{}, \"65535\"))", New: "\t\t\tinsts = append(insts, wat.NewInstSub(toWatType(ret_type)))\n\t\t}\n\n\t\tif ret_type.Equal(m.U8) {\n\t\t\tinsts = append(insts, wat.NewInstConst(wat.I32{}, \"255\"))\n\t\t\tinsts = append(insts, wat.NewInstAnd(wat.I32{}))\n\t\t} else if ret_type.Equal(m.U16) {\n\t\t\tinsts = append(insts, wat.NewInstConst(wat.I32{}, \"65536\"))", Expect: "narrow-mask :: binop Sub U16"},
@@ -252,11 +252,20 @@ func runC01(c *Ctx) {
 				for _, t := range arm.Types {
 					tn := namedTypeName(t)
 					ti, ok := watTypeInfo[tn]
-					if !ok || len(ms) == 0 {
+					if !ok {
+						continue
+					}
+					// an arm shared by several types prints the type's own name followed by ".op"
+					m := ""
+					if len(ms) > 0 {
+						m = ms[0]
+					} else if suf := dotSuffixLiterals(watPk.TypesInfo, arm.Body); len(suf) == 1 && strings.Contains(nodeString(p, &ast.BlockStmt{List: arm.Body}), ".typ.Name()") {
+						m = ti.prefix + suf[0]
+					}
+					if m == "" || !reMnemonic.MatchString(m) {
 						continue
 					}
 					nFmt++
-					m := ms[0]
 					mm := reMnemonic.FindStringSubmatch(m)
 					prefixOK := mm[1] == ti.prefix
 					suffix := ""
